@@ -75,7 +75,30 @@ def observations():
             fn("sum", P(ch(T_TEXT))), fn("name", P(ch(T_NODE, num(1)))), P(step("parent", T_NODE), ch(T_NODE)), fn("count", P(step("parent", T_NODE), ch(T_TEXT)))]
 
 
-def render(decls, obs):
+# keys whose match or use expression sees whitespace-only text nodes (12.2: "every observation is consistent": key tables are built
+# from the stripped tree)
+P_ = lambda *steps, **kw: path(list(steps), **kw)
+KEYS = [{"name": "kt", "match": P_(step("child", T_TEXT)), "use": fn("string-length", P_(step("self", T_NODE)))},
+        {"name": "kn", "match": P_(step("child", T_ANY)), "use": fn("count", P_(step("child", T_NODE)))},
+        {"name": "kc", "match": P_(step("child", T_ANY)), "use": P_(step("child", T_TEXT))},
+        {"name": "kp", "match": P_(step("child", T_TEXT)), "use": fn("name", P_(step("parent", T_NODE, abbr=False)))}]
+SPEC_KEYS = [{"name": xdm.cps(k["name"]), "match": xpgen.strip_render_only(k["match"]), "use": xpgen.strip_render_only(k["use"])} for k in KEYS]
+# xsl:number instructions that count text / all nodes, run on every element (7.7 on the stripped tree)
+# (the count pattern is spelled out instead of node(): the pattern node() has its own known finding under C09)
+def _anynode():
+    return bin_("|", bin_("|", bin_("|", P_(step("child", T_ANY)), P_(step("child", T_TEXT))), P_(step("child", T_COMMENT))), P_(step("child", t_pi())))
+NUMBERS = [{"level": "single", "count": _anynode()}, {"level": "multiple", "count": _anynode()},
+           {"level": "any", "count": _anynode()}, {"level": "any", "count": bin_("|", P_(step("child", T_TEXT)), P_(step("child", t_name("a"))))},
+           {"level": "multiple", "count": bin_("|", P_(step("child", T_TEXT)), P_(step("child", T_ANY)))}]
+
+
+def key_observations():
+    return [fn("count", fn("key", lit("kt"), num(1))), fn("key", lit("kn"), num(2)), fn("key", lit("kn"), fn("count", P_(step("child", T_NODE)))),
+            fn("count", fn("key", lit("kc"), lit(" "))), fn("key", lit("kc"), lit("t")), fn("count", fn("key", lit("kp"), fn("name"))),
+            fn("key", lit("kt"), fn("string-length", P_(step("child", T_NODE, num(1))))), fn("count", fn("key", lit("kn"), num(0)))]
+
+
+def render(decls, obs, numbers=()):
     """-> {file name: text}; modules without declarations are not imported (unless needed to reach A1)"""
     used = {d["mod"] for d in decls}
     if "A1" in used:
@@ -86,7 +109,11 @@ def render(decls, obs):
     head = '<xsl:stylesheet version="1.0" %s>' % XSLNS
     files = {}
     main = [head] + ['<xsl:import href="%s.xsl"/>' % m for m in ("A", "B") if m in used] + body["main"]
-    main.append('<xsl:template match="/"><o><xsl:copy-of select="."/></o><xsl:for-each select="//* | /."><xsl:call-template name="obs"/></xsl:for-each></xsl:template>')
+    for k in KEYS:
+        main.append('<xsl:key name="%s" match=%s use=%s/>' % (k["name"], quoteattr(xpgen.render(k["match"])), quoteattr(xpgen.render(k["use"]))))
+    nums = "".join('<n><xsl:number level="%s" count=%s format="1.1"/></n>' % (nm["level"], quoteattr(xpgen.render(nm["count"]))) for nm in numbers)
+    main.append('<xsl:template match="/"><o><xsl:copy-of select="."/></o><xsl:for-each select="//* | /."><xsl:call-template name="obs"/></xsl:for-each>'
+                '<xsl:for-each select="//*"><e>%s</e></xsl:for-each></xsl:template>' % nums)
     main.append('<xsl:template name="obs">' + "".join('<xsl:variable name="v%d" select=%s/>' % (i, quoteattr(xpgen.render(e))) for i, e in enumerate(obs)) + '</xsl:template>')
     main.append('</xsl:stylesheet>')
     files["main.xsl"] = "\n".join(main) + "\n"
@@ -135,18 +162,20 @@ def run(res, tier, seed):
     docs = [gen_doc(rng) for _ in range(ndocs)]
     flats = [xdm.flatten(t) for t in docs]
     allobs = observations()
+    keyobs = key_observations()
     ncases = 150 if quick else 3000
     cases, metas = [], []
     for k in range(ncases):
         d = rng.randrange(ndocs)
         decls = gen_decls(rng)
-        obs = rng.sample(allobs, 8)
+        obs = rng.sample(allobs, 7) + rng.sample(keyobs, 2)
+        numbers = rng.sample(NUMBERS, 2)
         cdir = os.path.join(wd, "case%d" % k); os.makedirs(cdir)
-        for fn_, txt in render(decls, obs).items():
+        for fn_, txt in render(decls, obs, numbers).items():
             open(os.path.join(cdir, fn_), "w").write(txt)
         open(os.path.join(cdir, "in.xml"), "w").write(xdm.render_xml(docs[d]))
         cases.append({"id": k, "dir": cdir, "trace": "none", "select": True})
-        metas.append((d, decls, obs))
+        metas.append((d, decls, obs, numbers))
     exe = vlib.build_harness("xslt")
     nsh = vlib.NCPU
     procs = []
@@ -165,7 +194,7 @@ def run(res, tier, seed):
                 cur = by_id.setdefault(ev["id"], [])
             cur.append(ev)
         for c in ch:
-            d, decls, obs = metas[c["id"]]
+            d, decls, obs, numbers = metas[c["id"]]
             sample = {"xsl": all_xsl(c["dir"]), "xml": xdm.render_xml(docs[d])}
             evs = by_id.get(c["id"])
             if not evs or evs[-1]["e"] != "Done":
@@ -184,7 +213,19 @@ def run(res, tier, seed):
                 val = e["val"]
                 if val["t"] == "ns":
                     val = {"t": "ns", "v": [[d + 1, x[1], 0] for x in val["v"]]}
-                events.append({"e": "Obs", "doc": d + 1, "ctx": e["node"][1], "decls": sd, "expr": xpgen.strip_render_only(ob), "text": xpgen.render(ob), "res": val, "sample": c["id"]})
+                events.append({"e": "Obs", "doc": d + 1, "ctx": e["node"][1], "decls": sd, "keys": SPEC_KEYS, "expr": xpgen.strip_render_only(ob), "text": xpgen.render(ob), "res": val, "sample": c["id"]})
+            # xsl:number outputs: one <e> per element of the (stripped) source in document order, holding one <n> per instruction
+            es = [x for x in dn["tree"] if x["k"] == "elem" and x["qn"] == "e"]
+            elems = [i + 1 for i in range(flats[d]["n"]) if flats[d]["kind"][i] == "elem"]
+            if len(es) != len(elems):
+                res.violation("result does not hold one <e> per source element (%d vs %d)" % (len(es), len(elems)), [sample]); continue
+            for node, x in zip(elems, es):
+                ns_ = [y for y in x["c"] if y["k"] == "elem" and y["qn"] == "n"]
+                for nm, y in zip(numbers, ns_):
+                    out = "".join(z["v"] for z in y["c"] if z["k"] == "text")
+                    ins = {"level": nm["level"], "hasCount": True, "count": xpgen.strip_render_only(nm["count"]), "hasFrom": False, "from": xpgen.strip_render_only(nm["count"])}
+                    events.append({"e": "Num", "doc": d + 1, "ctx": node, "decls": sd, "instr": ins, "fmt": xdm.cps("1.1"), "out": xdm.cps(out),
+                                   "text": "xsl:number level=%s count=%s" % (nm["level"], xpgen.render(nm["count"])), "sample": c["id"]})
     res.cov["evaluations"] = len(events)
     dpath = os.path.join(wd, "docs.ndjson")
     vlib.write_ndjson(dpath, flats)
@@ -203,11 +244,12 @@ def run(res, tier, seed):
             nt.add(ev["sample"])
     res.cov["distinct_nontrivial"] = len({vlib.canon_hash([e["doc"], e["decls"], e.get("text"), e.get("ctx")]) for e in events if e["sample"] in nt})
     res.cov["rule"] = ("seeded documents (depth <= 3, whitespace-only text before/between/after children and next to comments/PIs) x 1-4 strip/preserve declarations (*, QNames, "
-                       "conflicting, spread over an import tree main > B > A > A1 with conflicts between sibling and nested imports) x 8 of 25 observation expressions evaluated from every element and the root (child/descendant/sibling/following/preceding axes, "
-                       "position/last, count, string values, sum, name) + xsl:copy-of of the whole document; non-trivial = the declarations strip at least one node of that document; "
+                       "conflicting, spread over an import tree main > B > A > A1 with conflicts between sibling and nested imports) x 7 of 25 observation expressions evaluated from every element and the root (child/descendant/sibling/following/preceding axes, "
+                       "position/last, count, string values, sum, name) + 2 of 8 key() observations over four keys whose match/use see text nodes + 2 of 5 xsl:number "
+                       "instructions (single/multiple/any counting node() / text()) on every element + xsl:copy-of of the whole document; non-trivial = the declarations strip at least one node of that document; "
                        "distinct by (document, declarations, observation, context)")
     for ev in [e for e in events if e["e"] == "Obs"][:: max(1, len(events) // 4)][:4]:
-        res.sample({k: ev[k] for k in ("doc", "ctx", "decls", "text", "res")})
+        res.sample({k: ev[k] for k in ("doc", "ctx", "decls", "text", "res") if k in ev})
     res.assumptions += ["documents carry no xml:space attributes (Xalan does not consult xml:space in source documents; out of this property's statement)",
                         "the value on the stripped document is computed by XPathSem (C02's definition)"]
 
